@@ -374,7 +374,7 @@ fn main() {
         }
     }
     // 2. random
-    let n_random = if is_thorough() { 1200 } else { 100 };
+    let n_random = if is_thorough() { 6000 } else { 600 };
     for i in 0..n_random {
         let m = modes[i % 2];
         let n_inf = match i % 5 {
